@@ -6,7 +6,7 @@
 (***************************************************************************)
 EXTENDS TraceBase, ScalarField
 
-VARIABLES l, bad, cnt
+VARIABLES tl, tBad, tCnt
 
 H(s)      == HexToInt(s)
 Is(x, s)  == IntIsHex(x, W, s)
@@ -109,19 +109,19 @@ Verdict(ev) ==
     [] ev.ev = "smont.To"   -> << Is(SMul(H(ev.a), RMont), ev.out), {} >>
     [] ev.ev = "smont.Nonzero" -> << ev.out = FlagOf(~BigEq(H(ev.a), 0)), {} >>
 
-Init == l = 1 /\ bad = 0 /\ cnt = [k \in Classes \cup {"_any"} |-> 0]
+Init == tl = 1 /\ tBad = 0 /\ tCnt = [k \in Classes \cup {"_any"} |-> 0]
 
 Step ==
-  /\ l <= NLog
-  /\ LET ev == Log[l]
+  /\ tl <= NLog
+  /\ LET ev == Log[tl]
          v  == Verdict(ev)
-     IN  /\ bad' = IF v[1] THEN bad ELSE bad + 1
-         /\ (IF v[1] THEN TRUE ELSE Mismatch(l, ev))
-         /\ cnt' = BumpAll(cnt, v[2])
-  /\ l' = l + 1
+     IN  /\ tBad' = IF v[1] THEN tBad ELSE tBad + 1
+         /\ (IF v[1] THEN TRUE ELSE Mismatch(tl, ev))
+         /\ tCnt' = BumpAll(tCnt, v[2])
+  /\ tl' = tl + 1
 
-Finish == l = NLog + 1 /\ Done(l, bad, cnt) /\ l' = l + 1 /\ UNCHANGED <<bad, cnt>>
+Finish == tl = NLog + 1 /\ Done(tl, tBad, tCnt) /\ tl' = tl + 1 /\ UNCHANGED <<tBad, tCnt>>
 
 Next == Step \/ Finish
-Spec == Init /\ [][Next]_<<l, bad, cnt>>
+Spec == Init /\ [][Next]_<<tl, tBad, tCnt>>
 =============================================================================
